@@ -1,45 +1,7 @@
-use cooklang::{CooklangParser, ScalableRecipe, ScaledRecipe};
+use cooklang::CooklangParser;
 fn main() {
     let parser = CooklangParser::extended();
-    let inputs = [
-        "---\n1: x\n---\n@a{1%g}",
-        "---\n? [a, b]\n: 1\n---\nx",
-        "---\n~: 1\n---\nx",
-        "---\ntrue: 1\n---\nx",
-        "---\n1.5: 1\n---\nx",
-        "---\na: !foo bar\n---\nx",
-        "---\na: .inf\n---\nx",
-        "---\na: 1e400\n---\nx",
-        "---\na: -0.0\n---\nx",
-        "---\na: 18446744073709551615\nb: -9223372036854775808\nc: 1.0\nd: 1e3\ne: 123456789012345678901234567890\n---\nx",
-        "---\n1: x\n\"1\": y\n---\nx",
-        "---\na: {1: 2}\n---\nx",
-        "@a{1e400}",
-        "@a{99999999999999999999999999999999999999999999999999999999999999999999999999999999999999999999999999999999999999999999999999999999999999999999999999999999999999999999999999999999999999999999999999999999999999999999999999999999999999999999999999999999999999999999999999999999999999999999999999999999999999999999999999999999999}",
-        "@a{1/3%cup} @b{2-3%kg} @&a{1%cup} ~{5%min} #p{2}",
-        "---\nservings: 2|4\n---\n@a{1|2%g}",
-        "---\na: 0x10\nb: 0o17\nc: +5\nd: 1_000\n---\nx",
-    ];
-    for inp in inputs {
-        println!("== {inp:?}");
-        let Ok((r, _)) = parser.parse(inp).into_result() else { println!("  rejected"); continue; };
-        match serde_json::to_string(&r) {
-            Err(e) => println!("  to_string fails: {e}"),
-            Ok(js) => {
-                println!("  json: {}", &js[..js.len().min(300)]);
-                match serde_json::from_str::<ScalableRecipe>(&js) {
-                    Err(e) => println!("  from_str fails: {e}"),
-                    Ok(back) => { println!("  equal: {}  rejson-identical: {}", back == r, serde_json::to_string(&back).unwrap() == js); }
-                }
-            }
-        }
-        let s = r.scale(2.0, parser.converter());
-        match serde_json::to_string(&s) {
-            Err(e) => println!("  scaled to_string fails: {e}"),
-            Ok(js) => match serde_json::from_str::<ScaledRecipe>(&js) {
-                Err(e) => println!("  scaled from_str fails: {e}  json {}", &js[..js.len().min(400)]),
-                Ok(back) => println!("  scaled rejson-identical: {}", serde_json::to_string(&back).unwrap() == js),
-            }
-        }
+    for inp in ["@a{1000000%g}", "@a{1 1/3%g}", "@a{7/3}", "@a{1/2-3/4%g}", "@a{=1%g}", "@a{2 g}", "@a{1 1/2 cup}", "#pan{1-2}", "@a{10.25 %kg}", "~{1000000%min}", "~{0.1%h}","@a{1} @&a{2}", "step one @x{}\n\nthen @&(~1)dough{}", "one\n\ntwo @&(1)thing{1%g}", "= A\n\nx\n\n= B\n\n@&(=1)sec{} @&(=~1)prev{}", "@a|b{1}", "@&a{}", "@a{} @&a|c{}", "@?a{} @-b{} @+c{} @@d{}", "@a{}(n) @&a{}(m)"] {
+        match parser.parse(inp).into_result() { Ok(_) => println!("ok   {inp:?}"), Err(e) => println!("ERR  {inp:?}: {}", e.errors().next().map(|d| d.to_string()).unwrap_or_default()) }
     }
 }
